@@ -729,9 +729,9 @@ impl Universe {
         // parked in NEXT_JOB and the launcher is parked
         let mut idle = 0;
         while idle < nworkers || u.launcher_notif.is_none() {
-            let n = match seam::recv(u.listener, 10_000) {
+            let n = match seam::recv(u.listener, 120_000) {
                 Ok(Some(n)) => n,
-                Ok(None) => return Err("bootstrap: no notification within 10 s".into()),
+                Ok(None) => return Err("bootstrap: no notification within 120 s".into()),
                 Err(e) => return Err(format!("bootstrap recv: {}", sys::errname(e))),
             };
             if n.data.nr as i64 == seam::HYPERCALL_NR {
